@@ -495,13 +495,16 @@ func (req *Request) getDistributedResponse(ctx context.Context) (*Response, erro
 		}
 
 		if node.isMe {
-			// answer locally
-			req.SendStatsData = true
-			res, _, err := NewResponse(ctx, req, nil)
+			// answer locally, with the same sub request the partner nodes get: the offset and the limit of
+			// the client's request are applied once, to the merged result
+			subReq, err := req.localSubRequest(subBackends)
 			if err != nil {
 				return nil, err
 			}
-			req.SendStatsData = false
+			res, _, err := NewResponse(ctx, subReq, nil)
+			if err != nil {
+				return nil, err
+			}
 			if res.result == nil {
 				res.SetResultData()
 			}
@@ -583,6 +586,25 @@ func (req *Request) getDistributedResponse(ctx context.Context) (*Response, erro
 	}
 
 	return res, nil
+}
+
+// localSubRequest returns the request this node answers for its own share of a distributed request.
+func (req *Request) localSubRequest(subBackends []string) (*Request, error) {
+	raw, err := json.Marshal(req.buildDistributedRequestData(subBackends))
+	if err != nil {
+		return nil, fmt.Errorf("json: %w", err)
+	}
+	requestData := make(map[string]interface{})
+	if err = json.Unmarshal(raw, &requestData); err != nil {
+		return nil, fmt.Errorf("json: %w", err)
+	}
+	subReq, err := parseRequestDataToRequest(req.lmd, requestData)
+	if err != nil {
+		return nil, err
+	}
+	err = subReq.ExpandRequestedBackends()
+
+	return subReq, err
 }
 
 func (req *Request) getSubBackends(allBackendsRequested bool, nodeBackends []string) (subBackends []string) {
